@@ -347,7 +347,7 @@ spec("C08",
      cmd="c08", count=dict(quick=150, thorough=1500),
      vo_targets=["props/C08.vo"],
      level="proof",
-     rule="cases 0..2: unions of eight small balls on grid corners arranged so that two face-adjacent leaf cells share an ambiguous face (corner masks 185 over 155; the configuration the Coq model of dc_edge proves non-manifold); cases 3, 4: a 1.0 x 0.6 x 0.8 box rotated by 0.3 about z and 0.5 about x at depths 3 and 6 (a two-sheet leaf next to collapsible cells); then random 3D CSG (unions / intersections / differences / blends of spheres, boxes, scaled spheres, expanded-polynomial balls, exact box distances; nesting 0..3) with the surface inside (-1,1)^3, one case in five an oblique polyhedral shape (box, slab, slotted box, crossing boxes, box clipped by a ball) through a pure rotation, one in four with the field multiplied by a power of ten 1e-4..1e6 (the unscaled mesh is built too and must have the same volume and manifoldness); octree depth 1..6, world-to-model identity / scale 1..1.5 / scale 1.8 with an Euler rotation / perspective, no pool / global / custom pools, interpreter and JIT; every mesh is written out and judged by the extracted verified checker (closed 2-manifold, sign of the exact signed volume) which must agree with the harness; oracle: finite vertices, no repeated index, every directed edge once with its reverse once, signed volume not negative beyond the tolerance, |mesh volume - volume sampled on a 40^3 (depth >= 5: 128^3) grid| <= c1 A cell + 2 cell^3 + sampling error where A is the smaller of the mesh's area and 1.25 times the area bound counted from sign changes between neighbouring samples (so a mesh thrown out of the region cannot excuse itself), and for meshes of >= 200 triangles a majority of triangle normals pointing from inside to outside; an offending edge is the recorded finding only when (through the leaves hook) both ends are the single vertices of two face-adjacent leaves of the SAME depth whose shared face has alternating corner signs; distinct_nontrivial = distinct configurations",
+     rule="cases 0..2: unions of eight small balls on grid corners arranged so that two face-adjacent leaf cells share an ambiguous face (corner masks 185 over 155; the configuration the Coq model of dc_edge proves non-manifold); cases 3, 4: a 1.0 x 0.6 x 0.8 box rotated by 0.3 about z and 0.5 about x at depths 3 and 6 (a two-sheet leaf next to collapsible cells); then random 3D CSG (unions / intersections / differences / blends of spheres, boxes, scaled spheres, expanded-polynomial balls, exact box distances; nesting 0..3) with the surface inside (-1,1)^3, one case in five an oblique polyhedral shape (box, slab, slotted box, crossing boxes, box clipped by a ball) through a pure rotation, one in four with the field multiplied by a power of ten 1e-4..1e6 (the unscaled mesh is built too and must have the same volume and manifoldness); octree depth 1..6, world-to-model identity / scale 1..1.5 / scale 1.8 with an Euler rotation / perspective, no pool / global / custom pools, interpreter and JIT; every mesh is written out and judged by the extracted verified checker (closed 2-manifold, sign of the exact signed volume) which must agree with the harness; oracle: finite vertices, no repeated index, every directed edge once with its reverse once, signed volume not negative beyond the tolerance, |mesh volume - volume sampled on a 40^3 (depth >= 5: 128^3) grid| <= c1 A cell + 2 cell^3 + sampling error where A is the smaller of the mesh's area and 1.25 times the area bound counted from sign changes between neighbouring samples (so a mesh thrown out of the region cannot excuse itself), and for meshes of >= 200 triangles a majority of triangle normals pointing from inside to outside; an offending edge is the recorded finding only when (through the leaves hook) both ends are the single vertices of two face-adjacent leaves of the SAME depth whose shared face has alternating corner signs; distinct_nontrivial = distinct configurations; every cell vertex lies within one cell size of its own leaf (the guarantee proved in QefBound.v for the repaired placement, measured through the leaves hook)",
      classify=classify_backend,
      assumptions=["manifoldness of the dual walk for ALL octrees is not proved: the checker decides it per mesh; the for-all content is the table theorems (all 256 masks), the fan orientation, and the checker's soundness and completeness",
                   "leaf vertices are not clamped to their cells, so features of about one cell may come out inverted: volume and orientation are judged beyond the sampling resolution only"],
